@@ -261,6 +261,8 @@ func (w *World) run(scn int) {
 			d = 3
 		}
 		sched = newPCT(w.rng, d, 200)
+	case "freeze":
+		sched = newFreeze(w.rng)
 	case "replay":
 		sched = &replaySched{list: plan.Decisions, fallback: &randomSched{w.rng}, ctl: w.ctl}
 	default:
@@ -343,8 +345,12 @@ func ridOf(r *http.Request) string {
 	return r.Header.Get("X-Verif-Rid")
 }
 
+// targetName: "<name>#<k>" where k counts the Target instances created with
+// that name (deterministic: instances of one name are created by successive
+// commands, whereas a global counter would depend on goroutine timing).
 func (w *World) targetName(t *server.Target) string {
-	return server.VerifTargetName(t) + "#" + strconv.Itoa(w.id("target", t))
+	name := server.VerifTargetName(t)
+	return name + "#" + strconv.Itoa(w.id("target:"+name, t))
 }
 
 func (w *World) onYield(point string, objs ...any) {
@@ -366,7 +372,7 @@ func (w *World) onYield(point string, objs ...any) {
 		} else {
 			kv["ver"] = 0
 		}
-	case "gate_passed", "pre_claim":
+	case "gate_passed", "pre_claim", "pre_send":
 		req := objs[0].(*http.Request)
 		rid := ridOf(req)
 		if rid == "" {
@@ -380,35 +386,45 @@ func (w *World) onYield(point string, objs ...any) {
 		if svc, ok := objs[1].(*server.Service); ok {
 			kv["ver"] = w.id("svcver", svc)
 		}
-	case "wait_snapshot":
+		if tg, ok := objs[1].(*server.Target); ok {
+			kv["tg"] = server.VerifTargetName(tg)
+		}
+	case "wait_snapshot", "wait_released":
 		actor = w.ctl.ActorOfGoroutine()
 		if actor == "" {
 			return
 		}
 		kv["r"] = strings.TrimPrefix(actor, "r:")
-		kv["state"] = objs[1]
+		if len(objs) > 1 {
+			kv["state"] = objs[1]
+		}
 	case "hc_result", "hc_applied", "hc_notified":
 		t := objs[0].(*server.Target)
 		actor = "hc:" + w.targetName(t)
 		kv["tg"] = server.VerifTargetName(t)
-		kv["tid"] = w.id("target", t)
+		kv["tid"] = w.id("target:"+server.VerifTargetName(t), t)
 		kv["ok"] = objs[1]
-	case "dep_healthy", "dep_pre_install", "dep_installed", "dep_drained":
+	case "dep_started", "dep_healthy", "dep_pre_install", "dep_installed", "dep_drained":
 		actor = w.ctl.ActorOfGoroutine()
 		kv["c"] = strings.TrimPrefix(actor, "c:")
 		kv["ver"] = w.id("svcver", objs[0])
 		kv["lb"] = w.id("lb", objs[1])
-	case "paused_pre_drain", "snap_begin", "snap_listed", "snap_created", "snap_written":
+	case "paused_pre_drain", "snap_begin", "snap_listed", "snap_created", "snap_written", "remove_start":
 		actor = w.ctl.ActorOfGoroutine()
 		if actor == "" {
 			return
 		}
 		kv["c"] = strings.TrimPrefix(actor, "c:")
-	case "drain_marked", "drain_deadline":
+	case "wait_healthy":
+		t := objs[0].(*server.Target)
+		actor = "wh:" + w.targetName(t)
+		kv["tg"] = server.VerifTargetName(t)
+		kv["tid"] = w.id("target:"+server.VerifTargetName(t), t)
+	case "drain_start", "drain_marked", "drain_deadline":
 		t := objs[0].(*server.Target)
 		actor = "dr:" + w.targetName(t)
 		kv["tg"] = server.VerifTargetName(t)
-		kv["tid"] = w.id("target", t)
+		kv["tid"] = w.id("target:"+server.VerifTargetName(t), t)
 	default:
 		return
 	}
@@ -434,7 +450,7 @@ func (w *World) onEmit(event string, objs ...any) {
 		t := objs[1].(*server.Target)
 		kv["r"] = rid
 		kv["tg"] = server.VerifTargetName(t)
-		kv["tid"] = w.id("target", t)
+		kv["tid"] = w.id("target:"+server.VerifTargetName(t), t)
 	case "claim_none":
 		req := objs[0].(*http.Request)
 		rid := ridOf(req)
@@ -450,13 +466,13 @@ func (w *World) onEmit(event string, objs ...any) {
 	case "hc_apply":
 		t := objs[0].(*server.Target)
 		kv["tg"] = server.VerifTargetName(t)
-		kv["tid"] = w.id("target", t)
+		kv["tid"] = w.id("target:"+server.VerifTargetName(t), t)
 		kv["ok"] = objs[1]
 		kv["state"] = objs[2]
 	case "target_state":
 		t := objs[0].(*server.Target)
 		kv["tg"] = server.VerifTargetName(t)
-		kv["tid"] = w.id("target", t)
+		kv["tid"] = w.id("target:"+server.VerifTargetName(t), t)
 		kv["state"] = objs[1]
 		kv["was"] = objs[2]
 	case "install", "install_conflict", "remove":
@@ -730,7 +746,7 @@ func (w *World) runClientLane(i int, lane []Req) {
 				w.mu.Unlock()
 				w.ctl.Wake()
 			}()
-			if rq.Kind == "upgrade" {
+			if rq.Kind == "upgrade" || rq.Kind == "slowupgrade" {
 				w.doUpgrade(rq)
 			} else {
 				w.doRequest(rq)
@@ -829,7 +845,7 @@ func (w *World) doUpgrade(rq Req) {
 		<-w.stop
 		conn.Close()
 	}()
-	fmt.Fprintf(conn, "GET %s HTTP/1.1\r\nHost: %s\r\nConnection: Upgrade\r\nUpgrade: websocket\r\nX-Verif-Rid: %s\r\nX-Verif-Kind: upgrade\r\n\r\n", rq.Path, rq.Host, rq.ID)
+	fmt.Fprintf(conn, "GET %s HTTP/1.1\r\nHost: %s\r\nConnection: Upgrade\r\nUpgrade: websocket\r\nX-Verif-Rid: %s\r\nX-Verif-Kind: %s\r\nX-Verif-Hold: %d\r\n\r\n", rq.Path, rq.Host, rq.ID, rq.Kind, rq.HoldMs)
 	br := bufio.NewReader(conn)
 	resp, err := http.ReadResponse(br, nil)
 	if err != nil {
